@@ -41,6 +41,7 @@ def showSaved (s : Saved) : String :=
   s!"{encStrList s.memberOrder} {encPairs s.defaults} {encPairs s.overrides} {encPairs s.parts} {encRelItems s.rels}"
 
 def handle : List String → Option String
+  | ["c16.main", ct] => do let ct ← decStr ct; pure (if Opc.isPresentationType ct then "ok" else "ValueError")
   | ["c01.rt", hasCT, dct, xmlCT, relsCT, defaults, overrides, members, rels] => do
       let dct ← decPairs dct; let xmlCT ← decStr xmlCT; let relsCT ← decStr relsCT
       let defaults ← decPairs defaults; let overrides ← decPairs overrides
